@@ -213,7 +213,7 @@ class Check(CheckBase):
             "'..', absolute path into the watched area, quotes, control and non-ASCII characters, '(2)' forms, empty stems) as "
             "Roland sample / performance / volume names (also below the pseudo volume that collects orphan performances, with and "
             "without real volumes on the disk) and as cue TITLEs; export into <scratch>/w/deep/dest with the "
-            "parents watched; 201-entry AKAI volumes with a pair / a duplicate whose stem is owned by a sibling 2..200 places away; "
+            "parents watched; names differing only in the length of a blank run (8 cue titles k<=3, 5 AKAI names k=3); 201-entry AKAI volumes with a pair / a duplicate whose stem is owned by a sibling 2..200 places away; "
             "singles, doubled names and neighbouring (thorough: all) pairs again on an image object whose root "
             "and first-level items were listed before the export. Oracle: nothing created outside dest; Exported lines pairwise distinct and as many as files; "
             "every component non-empty, [\\w -.#()] only, begins with \\w, does not end in space or dot. non-trivial = two "
@@ -278,6 +278,13 @@ class Check(CheckBase):
             for t in (["../x", ABS], ["a/b", "a\\b"], ["a", "a"]):
                 cases.append({"kind": "cdda", "names": t, "dest": dest})
             rol.append({"kind": "roland_sample", "names": ["../x", "a"], "dest": dest})
+        # names that differ only in the LENGTH of a run of blanks (or in what a sanitised character leaves behind)
+        runs = ["A B", "A  B", "A   B", "A/ B", "A / B", "A\\ B", "A B ", " A B"]
+        for kk in (2, 3):
+            for t in itertools.product(runs, repeat=kk):
+                cases.append({"kind": "cdda", "names": list(t)})
+        for t in itertools.product(["A B", "A  B", "A   B", "A + B", "A+ B"], repeat=3):
+            cases.append({"kind": "akai_files", "names": list(t)})
         # large directories (the uniqueness of a name must hold over the WHOLE directory, however it is processed): 201
         # siblings, an L/R pair somewhere and a sample (or a second pair) that already owns the pair's stem somewhere else
         def big(n, places):
